@@ -8,11 +8,13 @@
 -/
 import Driver.Ops
 import Lungo.Model.Api
+import Lungo.Model.Session
 open Lean Lungo
 namespace Driver
 
 structure DState where
   sys : Sys := Sys.init
+  ssys : SSys := SSys.init
 
 def optDoc (j : Json) (k : String) : Except String (Option Doc) :=
   match j.getObjVal? k with
@@ -151,9 +153,46 @@ def opApiCall (st : DState) (j : Json) : DState × Json :=
     | .ok (s', r) => ({ st with sys := s' }, okJ (replyJ r))
     | .error e => (st, resJ (fun (_ : Unit) => Json.null) (.error e))
 
+/-- session-level step: {"k": "start"|"commit"|"abort"|"end"|"call", "sid": n|null, (call fields…)} -/
+def opSessStep (st : DState) (j : Json) : DState × Json :=
+  let sidOpt : Option Nat := match j.getObjVal? "sid" with
+    | .ok v => (jsonInt? v).map Int.toNat
+    | .error _ => none
+  let scall : Except String SCall := do
+    match optStr j "k" with
+    | "start" => pure (.start (sidOpt.getD 0))
+    | "commit" => pure (.commit (sidOpt.getD 0))
+    | "abort" => pure (.abort (sidOpt.getD 0))
+    | "end" => pure (.endSession (sidOpt.getD 0))
+    | "call" => do
+      let c ← callOf j
+      let oids : List V := match j.getObjVal? "oids" with
+        | .ok (.arr xs) => xs.toList.filterMap fun x => (V.ofJson x).toOption
+        | _ => []
+      pure (.call sidOpt c oids)
+    | k => throw s!"bad session step {k}"
+  match scall with
+  | .error e => (st, Json.mkObj [("bad", e)])
+  | .ok sc =>
+    let (s', r) := st.ssys.step schemaUnmodelled sc
+    let rj : Json := match r with
+      | .ok rep => okJ (replyJ rep)
+      | .done => okJ (Json.mkObj [("done", true)])
+      | .blocked => Json.mkObj [("blocked", true)]
+      | .failed e => resJ (fun (_ : Unit) => Json.null) (.error e)
+    ({ st with ssys := s' }, rj)
+
 def statefulOps : List (String × (DState → Json → DState × Json)) := [
   ("api.reset", fun _ _ => ({}, okJ Json.null)),
   ("api.call", opApiCall),
-  ("api.dump", fun st _ => (st, okJ (dumpJ st.sys)))]
+  ("api.dump", fun st _ => (st, okJ (dumpJ st.sys))),
+  ("sess.reset", fun st _ => ({ st with ssys := SSys.init }, okJ Json.null)),
+  ("sess.step", opSessStep),
+  ("sess.dump", fun st _ => (st, okJ (dumpJ st.ssys.sys))),
+  ("sess.dumpTxn", fun st j =>
+    let sid := (optInt j "sid" 0).toNat
+    match (st.ssys.sess sid).txn with
+    | some t => (st, okJ (dumpJ { st.ssys.sys with catalog := t.catalog }))
+    | none => (st, okJ Json.null))]
 
 end Driver
